@@ -321,10 +321,21 @@ def spec_rows(ctx, R, qname, rows):
                 continue
             n += 1
             env["__index__"] = ctx.index
+            env["__an__"] = ctx.an
             watch = row.get("effects")
             reached = set()
-            out, both = outcomes(g, fi.node, env, ao, memo, watch=set(watch) if watch else None, reached=reached)
+            # an effect is named by its statement text, or by (predicate on the statement, expectation)
+            wspec = None
+            if watch:
+                if any(isinstance(v, tuple) for v in watch.values()):
+                    wspec = {k: (v[0] if isinstance(v, tuple) else (lambda st_, k=k: norm(st_) == k))
+                             for k, v in watch.items()}
+                    watch = {k: (v[1] if isinstance(v, tuple) else v) for k, v in watch.items()}
+                else:
+                    wspec = set(watch)
+            out, both = outcomes(g, fi.node, env, ao, memo, watch=wspec, reached=reached)
             del env["__index__"]
+            del env["__an__"]
             exp = bool(row["abort"](env))
             ends = {x for x, t in out}
             # must abort: no path at all may complete; must continue: no abort on a path decided by the row
@@ -445,4 +456,67 @@ def effective_labels(g, t, sinks):
         seen = g.reach(starts, cut=cut)
         if not any(k.id in seen for k in sinks):
             out.append(lab)
+    return out
+
+
+def reach_flagged(g, starts, blocked=(), cut=(), init=None):
+    """forward reachability that follows boolean flags holding constants: the state is (node, known
+    flag values); `flag = True/False` updates it, a test `flag` / `not flag` with a known value takes
+    only the feasible edge.  Returns {node id} reached."""
+    flags = set()
+    for n in g.nodes:
+        if n.kind == "stmt" and isinstance(n.ast, ast.Assign) and len(n.ast.targets) == 1 \
+                and isinstance(n.ast.targets[0], ast.Name) and isinstance(n.ast.value, ast.Constant) \
+                and isinstance(n.ast.value.value, bool):
+            flags.add(n.ast.targets[0].id)
+    blocked = {b.id if hasattr(b, "id") else b for b in blocked}
+    cut = set(cut)
+    seen = set()
+    out = set()
+    st = []
+    for s_ in starts:
+        known = dict(init or {})
+        for f in flags:
+            if f in known:
+                continue
+            ds = reaching_defs(g, s_, f)
+            vals = {d_.ast.value.value for d_ in ds if d_.ast is not None and isinstance(d_.ast, ast.Assign)
+                    and isinstance(d_.ast.value, ast.Constant) and isinstance(d_.ast.value.value, bool)}
+            if ds and len(vals) == 1 and all(d_.ast is not None and isinstance(d_.ast, ast.Assign)
+                                             and isinstance(d_.ast.value, ast.Constant) for d_ in ds):
+                known[f] = vals.pop()
+        st.append((s_, tuple(sorted(known.items()))))
+    while st:
+        n, fv = st.pop()
+        if (n.id, fv) in seen or n.id in blocked:
+            continue
+        seen.add((n.id, fv))
+        out.add(n.id)
+        d = dict(fv)
+        if n.kind == "stmt" and isinstance(n.ast, ast.Assign) and len(n.ast.targets) == 1 \
+                and isinstance(n.ast.targets[0], ast.Name) and n.ast.targets[0].id in flags:
+            if isinstance(n.ast.value, ast.Constant) and isinstance(n.ast.value.value, bool):
+                d[n.ast.targets[0].id] = n.ast.value.value
+            else:
+                d.pop(n.ast.targets[0].id, None)
+        elif n.kind in ("stmt", "consume", "loop") and n.ast is not None:
+            # any other binding of a flag name (tuple targets, loop variables) forgets it
+            for x in ast.walk(n.ast) if n.kind != "consume" else []:
+                if isinstance(x, ast.Name) and isinstance(x.ctx, ast.Store) and x.id in d and not (
+                        isinstance(n.ast, ast.Assign) and len(n.ast.targets) == 1 and n.ast.targets[0] is x):
+                    d.pop(x.id, None)
+        fv2 = tuple(sorted(d.items()))
+        only = None
+        if n.kind == "test" and n.expr is not None:
+            t, neg = n.expr, False
+            while isinstance(t, ast.UnaryOp) and isinstance(t.op, ast.Not):
+                t, neg = t.operand, not neg
+            if isinstance(t, ast.Name) and t.id in d:
+                only = "T" if (d[t.id] != neg) else "F"
+        for m, l in n.succ:
+            if (n.id, l) in cut or (n.id, m.id, l) in cut:
+                continue
+            if only is not None and l in ("T", "F") and l != only:
+                continue
+            st.append((m, fv2))
     return out
